@@ -220,6 +220,16 @@ def run_driver(binary, cases_path, log_path, thorough=False, timeout=3600):
             harness = None
             rc = 3
             finished = False
+        if harness and cases and 'harness-crash' in str(harness):
+            # the driver crashed outside a library call with no heap damage on record: no verdict on this
+            # case, but it must not wipe out what the other cases and the other builds observe (a
+            # violation found elsewhere still stands; without one the run is inconclusive, exit 2)
+            last = max(cases)
+            with open(err_path, 'r', errors='replace') as ef:
+                cases[last].vios.append((max(cases[last].ops) if cases[last].ops else -1, 'harness/crash', '%s | %s' % (harness, ef.read()[-1500:].replace('\n', ' | '))))
+            harness = None
+            rc = 3
+            finished = False
         if harness or rc == 2:
             with open(err_path, 'r', errors='replace') as ef:
                 raise HarnessFailure('driver harness failure: %s\n%s' % (harness, ef.read()[-3000:]))
@@ -340,6 +350,10 @@ def settle(prop, tier, violations, coverage, level, assumptions, wall, inconclus
     os.makedirs(os.path.join(out_root, 'replays'), exist_ok=True)
     known = load_known()
     by_key = {}
+    harness_trouble = [v for v in violations if '/harness/' in '/' + v.key + '/' or v.key.startswith('harness/')]
+    violations = [v for v in violations if v not in harness_trouble]
+    if harness_trouble and not inconclusive:
+        inconclusive = 'the driver crashed outside a library call in %d case(s) (first: %s)' % (len(harness_trouble), harness_trouble[0].detail[:300])
     for v in violations:
         by_key.setdefault(v.key, []).append(v)
     real = 0
